@@ -1123,6 +1123,12 @@ func (env *Env) evalCall(x *ECall) SV {
 			return SV{vc.eng.st.Zero(vc.eng.st.SortOf(lt)), lt}
 		}
 		specFail("final: %s has no local variable %s", env.retFrame.fn.Name(), id.Name)
+	case "lastrecv":
+		// lastrecv(): the channel the function most recently received a value from on this path (nil if none)
+		if env.st.lastRecv != nil {
+			return SV{env.st.lastRecv, nil}
+		}
+		return SV{IntLit(0), nil}
 	case "kvsum":
 		return SV{vc.kvSum(env.st), ti}
 	case "txncount":
